@@ -55,6 +55,8 @@ def build_binary(md, cfgname, extra_flags=()):
         t0 = time.time()
         cmd = [CXX] + CXXFLAGS + list(extra_flags) + ["-I", os.path.join(REPO, "include"), "-I", HARNESS,
                "-DH_CFG=%s" % traits, "-DH_CFG_%s=1" % base, cpp, "-o", os.path.join(tmpd, "case")]
+        if "-DH_SERIALIZE" in extra_flags:
+            cmd.append("-lboost_serialization")
         r = subprocess.run(cmd, capture_output=True, text=True)
         dt = time.time() - t0
         if r.returncode != 0:
